@@ -173,6 +173,14 @@ func (i *Interface) checkCache(key string) record.Record {
 	if err == nil {
 		r, ok := cacheVal.(record.Record)
 		if ok {
+			// A record that expired or was deleted while it sat in the cache is
+			// not served from there, the storage decides about it.
+			r.Lock()
+			valid := r.Meta().CheckValidity()
+			r.Unlock()
+			if !valid {
+				return nil
+			}
 			return r
 		}
 	}
